@@ -205,8 +205,9 @@ func (m *Markdown) renderFencedCodeBlock(w io.Writer, n *ast.FencedCodeBlock, sr
 	})
 }
 
-// infoString resolves backslash escapes and character references in a code fence info string
-// (CommonMark treats it like text), using goldmark's writer and undoing its HTML escaping.
+// infoString resolves backslash escapes and character references in a piece of Markdown source
+// that CommonMark treats like text (code fence info strings, link destinations and titles,
+// image alt text), using goldmark's writer and undoing its HTML escaping.
 func infoString(b []byte) string {
 	var buf bytes.Buffer
 	bw := bufio.NewWriter(&buf)
@@ -361,16 +362,16 @@ func (m *Markdown) renderInlineNode(w io.Writer, node ast.Node, src []byte) erro
 	case *ast.Link:
 		content := m.inlineContent(n, src)
 		return m.renderTemplate(w, "link", map[string]any{
-			"href":    string(n.Destination),
-			"title":   string(n.Title),
+			"href":    infoString(n.Destination),
+			"title":   infoString(n.Title),
 			"content": content,
 		})
 	case *ast.Image:
 		alt := inlineText(n, src)
 		return m.renderTemplate(w, "image", map[string]any{
-			"src":   string(n.Destination),
+			"src":   infoString(n.Destination),
 			"alt":   alt,
-			"title": string(n.Title),
+			"title": infoString(n.Title),
 		})
 	case *ast.AutoLink:
 		url := string(n.URL(src))
@@ -435,7 +436,7 @@ func inlineText(node ast.Node, src []byte) string {
 	var buf strings.Builder
 	for c := node.FirstChild(); c != nil; c = c.NextSibling() {
 		if t, ok := c.(*ast.Text); ok {
-			buf.Write(t.Segment.Value(src))
+			buf.WriteString(infoString(t.Segment.Value(src)))
 		} else if c.HasChildren() {
 			buf.WriteString(inlineText(c, src))
 		}
